@@ -122,7 +122,7 @@ func (m *cycleMode) graphOf(g int64) graph {
 	r := hx.NewRand(m.o.seed*7919 + uint64(g))
 	n := 2 + r.Intn(8)
 	gr := graph{Shape: "random"}
-	kinds := []string{"list", "list", "dict", "tuple", "tuple", "struct", "func", "builtin", "int", "none", "set", "list", "dict", "struct"}
+	kinds := []string{"list", "list", "dict", "tuple", "tuple", "struct", "func", "func", "builtin", "int", "none", "set", "list", "dict", "tuple", "int"}
 	var mutables []int
 	for i := 0; i < n; i++ {
 		k := hx.Pick(r, kinds)
